@@ -382,12 +382,19 @@ class Interp:
             return True
         t = self.eval(type_node)
         classes = []
-        if isinstance(t, VTuple):
-            classes = [c.obj for c in t.items]
-        elif isinstance(t, VConc):
-            classes = [t.obj]
-        else:
+        items = t.items if isinstance(t, VTuple) else [t]
+        const = all(isinstance(c, VConc) and isinstance(c.obj, type) for c in items)
+        if self.ghost.get('k3') is not None:
+            # emitted code: WHICH exceptions a handler catches is fixed by the language (C04: the
+            # pipe / exists: catch AttributeError, NameError, LookupError, TypeError, ValueError), it
+            # never depends on a value looked up in the template's variable scope
+            self.oblige('%s.except_classes_constant' % self.vc.qual, z3.BoolVal(const), 'post',
+                        {'text': 'the classes named by an emitted except clause are constants of the '
+                                 'generated module, not values looked up at run time: '
+                                 + ast.unparse(type_node)[:160]})
+        if not const:
             raise Unsupported('except clause type %r' % (t,))
+        classes = [c.obj for c in items]
         if exc.cls is not None:
             return any(issubclass(exc.cls, c) for c in classes)
         # symbolic exception class: decide on an uninterpreted subclass predicate
